@@ -1744,6 +1744,22 @@ impl PartialOrd for DijkstraEntry {
     }
 }
 
+/// Verification hook: the priority-queue ordering used by the weighted search
+/// (`-1`/`0`/`1` for `Less`/`Equal`/`Greater`).
+#[cfg(feature = "neumann_verif")]
+#[must_use]
+pub fn verif_dijkstra_cmp(a_cost: f64, a_id: u64, b_cost: f64, b_id: u64) -> i8 {
+    let a = DijkstraEntry {
+        cost: a_cost,
+        node_id: a_id,
+    };
+    let b = DijkstraEntry {
+        cost: b_cost,
+        node_id: b_id,
+    };
+    a.cmp(&b) as i8
+}
+
 /// Type alias for the `BTreeMap` index structure.
 type PropertyIndex = BTreeMap<OrderedPropertyValue, Vec<u64>>;
 
